@@ -10,6 +10,7 @@ import (
 	"flag"
 	"fmt"
 	"go/types"
+	"math"
 	"os"
 	"os/exec"
 	"path/filepath"
@@ -434,6 +435,16 @@ func cmdRun(args []string) int {
 			sort.Strings(he.Known)
 			// violations: dedupe by (kind,id), replay natively
 			seenV := map[string]bool{}
+			if *verbose {
+				shown := map[string]bool{}
+				for _, v := range rep.Violations {
+					d := describe(v)
+					if !shown[d] && len(shown) < 25 {
+						shown[d] = true
+						fmt.Fprintf(os.Stderr, "   candidate %s %s: %s\n", v.Kind, v.ID, d)
+					}
+				}
+			}
 			for _, v := range rep.Violations {
 				key := v.Kind + "|" + v.ID
 				if v.Kind != "assert" {
@@ -612,6 +623,29 @@ func writeReplay(rc replayCtx, v *interp.Violation, n int) string {
 	b, _ := json.MarshalIndent(rf, "", " ")
 	os.WriteFile(path, b, 0o644)
 	return path
+}
+
+func describe(v *interp.Violation) string {
+	var parts []string
+	for _, in := range v.Inputs {
+		switch in.Kind {
+		case "string":
+			buf := make([]byte, in.Len)
+			for i, t := range in.Terms {
+				buf[i] = byte(v.Model[t.Name])
+			}
+			parts = append(parts, fmt.Sprintf("%s=%q", in.Name, string(buf)))
+		case "float64":
+			parts = append(parts, fmt.Sprintf("%s=%v", in.Name, math.Float64frombits(v.Model[in.Terms[0].Name])))
+		default:
+			parts = append(parts, fmt.Sprintf("%s=%d", in.Name, int64(v.Model[in.Terms[0].Name])))
+		}
+	}
+	s := strings.Join(parts, " ")
+	if v.Kind != "assert" {
+		s += " :: " + trunc(v.Msg, 200)
+	}
+	return s
 }
 
 func sanitize(s string) string {
